@@ -4,7 +4,9 @@ import (
 	"bytes"
 	"encoding/base64"
 	"encoding/json"
+	"errors"
 	"fmt"
+	"github.com/tailscale/setec/audit"
 	"os"
 	"path/filepath"
 	"sort"
@@ -79,6 +81,7 @@ func TestCheck(t *testing.T) {
 		prop = "C02"
 	}
 	rep := env.New(prop)
+	defer rep.Guard(env)
 	switch prop {
 	case "C02":
 		checkC02(t, env, rep)
@@ -188,10 +191,15 @@ func checkC02(t *testing.T, env *report.Env, rep *report.Report) {
 	}
 	liveAlpha := Alphabet([]string{"a"}, []string{"", "x", "y"}, []uint32{1, 2, 3}, false)
 	liveAlpha = append(liveAlpha, Op{Kind: "put", Name: "b", Value: "x"}, Op{Kind: "delete", Name: "b"})
+	// the same with a read-everything step in the alphabet, so that reads happen between writes and not only
+	// at the end of a history (state that reads leave in memory meets later writes)
+	obsAlpha := []Op{{Kind: "put", Name: "a", Value: "x"}, {Kind: "put", Name: "a", Value: "y"}, {Kind: "activate", Name: "a", Ver: 2}, {Kind: "delver", Name: "a", Ver: 1}, {Kind: "delver", Name: "a", Ver: 2}, {Kind: "delete", Name: "a"}, {Kind: "observe"}}
 	if env.Thorough() {
 		liveTree(rep, env, "live-tree-no-restart-depth5", liveAlpha, 5)
+		liveTree(rep, env, "live-tree-reads-between-writes-depth8", obsAlpha, 8)
 	} else {
 		liveTree(rep, env, "live-tree-no-restart-depth4", liveAlpha, 4)
+		liveTree(rep, env, "live-tree-reads-between-writes-depth6", obsAlpha, 6)
 	}
 }
 
@@ -229,6 +237,19 @@ func liveTree(rep *report.Report, env *report.Env, name string, alpha []Op, dept
 				}
 				m := model.NewKV()
 				for i, o := range hist {
+					if o.Kind == "observe" {
+						// a read-only step in the middle of a history: get, get-version, info and list of
+						// everything, through the public API; whatever these calls leave behind in memory
+						// is there when the later steps run
+						got := hx.Observe(d, ObsNames, 5)
+						if i == len(hist)-1 {
+							evals++
+							if want := hx.ObserveModel(m, ObsNames, 5); got != want {
+								fs.add("live-observable-state", fmt.Sprintf("live history %v: observable state %s, model %s", hist, got, want), hist)
+							}
+						}
+						continue
+					}
 					res := Apply(d, hx.Super(), o)
 					before := m.Clone()
 					wantV, acc := ApplyModel(m, o)
@@ -303,12 +324,23 @@ func replayHistory(t *testing.T, env *report.Env, rep *report.Report) {
 	d, path, _ := OpenFile(dir, nil)
 	m := model.NewKV()
 	sec := rep.Add(&report.Section{Name: "replay", Engine: "seqx"})
+	live := strings.HasPrefix(f.Key, "live-") // found on an instance that is never reopened
 	for i, o := range f.Replay.History {
-		file, _ := os.ReadFile(path)
-		d, _, err = OpenFile(dir, file)
-		if err != nil {
-			rep.Violate("replay", f.Key, fmt.Sprintf("reopen failed at step %d: %v", i, err), f.Replay)
-			return
+		if !live {
+			file, _ := os.ReadFile(path)
+			d, _, err = OpenFile(dir, file)
+			if err != nil {
+				rep.Violate("replay", f.Key, fmt.Sprintf("reopen failed at step %d: %v", i, err), f.Replay)
+				return
+			}
+		}
+		if o.Kind == "observe" {
+			sec.Evaluations++
+			if got, want := hx.Observe(d, ObsNames, 5), hx.ObserveModel(m, ObsNames, 5); got != want {
+				rep.Violate("replay", f.Key, fmt.Sprintf("step %d %v: observable state %s; model %s", i, o, got, want), f.Replay)
+				return
+			}
+			continue
 		}
 		res := Apply(d, hx.Super(), o)
 		before := m.Clone()
@@ -327,6 +359,13 @@ func replayHistory(t *testing.T, env *report.Env, rep *report.Report) {
 }
 
 // ---------------------------------------------------------------- C03
+
+// brokenSink is an audit log that cannot be written.
+type brokenSink struct{}
+
+func (brokenSink) Write(p []byte) (int, error) {
+	return 0, errors.New("audit log: no space left on device (scripted)")
+}
 
 // writeV1 serialises a model state in the documented schema-version-1 layout,
 // independently of setec's code: JSON wrapper {Version, DEK, DB}; DEK = tink
@@ -395,7 +434,7 @@ func checkC03(t *testing.T, env *report.Env, rep *report.Report) {
 	}
 	fs := &failSet{}
 	sec := rep.Add(&report.Section{Name: fmt.Sprintf("restart-after-every-op-depth%d", depth), Engine: "seqx", Exhaustive: true, Extra: map[string]int64{},
-		Rule:  "BFS over operation histories with the database file closed and reopened (same key) before every single operation; the state reached through restarts is compared with the model and with the same history run live; non-trivial = transition into a new state",
+		Rule:  "BFS over operation histories with the database file closed and reopened (same key) before every single operation; the state reached through restarts is compared with the model and with the same history run live; in every state each operation is also tried with an audit log that cannot be written and the file reopened; non-trivial = transition into a new state",
 		Bound: fmt.Sprintf("depth %d, %d operations", depth, len(alpha))})
 	states, trans := BFS(alpha, depth, 16, nil, fs.add)
 	sec.States, sec.Transitions, sec.Evaluations, sec.Nontrivial = int64(len(states)), trans, trans, int64(len(states))-1
@@ -403,7 +442,7 @@ func checkC03(t *testing.T, env *report.Env, rep *report.Report) {
 	dir := hx.Scratch("c03-")
 	defer os.RemoveAll(dir)
 	ml := &mutLog{}
-	var roChecks, v1Checks, ctrChecks int64
+	var roChecks, v1Checks, ctrChecks, failedOps int64
 	for i, s := range states {
 		path := filepath.Join(dir, "db")
 		os.Remove(path)
@@ -447,6 +486,30 @@ func checkC03(t *testing.T, env *report.Env, rep *report.Report) {
 				fs.add("next-version-after-restart", fmt.Sprintf("history %v, restart, put(%s): got v%d err=%v, want v%d", s.Hist, n, got, err, want), s.Hist)
 			}
 		}
+		// operations that fail for a reason outside the database file (the audit log cannot be written):
+		// whatever each call reports, the file reopened afterwards holds exactly what the calls that
+		// reported success imply
+		for _, o := range alpha {
+			p4 := filepath.Join(dir, "refused")
+			os.Remove(p4)
+			os.WriteFile(p4, s.File, 0o600)
+			d4, err := db.Open(p4, KEK, audit.New(brokenSink{}))
+			if err != nil {
+				continue
+			}
+			res := Apply(d4, hx.Super(), o)
+			m := s.Model.Clone()
+			if res.Class == model.OK {
+				ApplyModel(m, o)
+			}
+			d5, err := db.Open(p4, KEK, hx.Discard())
+			failedOps++
+			if err != nil {
+				fs.add("reopen-after-refused-op", fmt.Sprintf("history %v, then %v with an audit log that cannot be written (reported %v): the file does not reopen: %v", s.Hist, o, res.Class, err), s.Hist)
+			} else if k := hx.DumpKey(d5); k != m.Key() {
+				fs.add("refused-op-persisted", fmt.Sprintf("history %v, then %v with an audit log that cannot be written: the call reported %v (%s), yet the reopened file holds %s; the calls that reported success imply %s", s.Hist, o, res.Class, res.Err, k, m.Key()), s.Hist)
+			}
+		}
 		// independent writer of the documented layout
 		p2 := filepath.Join(dir, "v1")
 		if err := writeV1(p2, KEK, s.Model); err != nil {
@@ -469,6 +532,7 @@ func checkC03(t *testing.T, env *report.Env, rep *report.Report) {
 	sec.Extra["open_readonly_checks"] = roChecks
 	sec.Extra["v1_independent_writer_opens"] = v1Checks
 	sec.Extra["next_version_probes"] = ctrChecks
+	sec.Extra["ops_with_unwritable_audit_log_then_reopen"] = failedOps
 	fs.flush(rep, sec.Name, 3)
 
 	// golden files written by the pinned commit
